@@ -35,6 +35,13 @@ def site(case):
             for c in F.children(g):
                 if F.has_op(c, POLAR):
                     return 'C20-mixed-polarity-operand'
+    # second open finding: a comparison (or arithmetic node) over a polarity-dependent operand - the explainer hands the sat/unsat flag of the
+    # comparison down unchanged, whatever the direction of the comparison and the threshold are
+    for g in F.subforms(f):
+        if g[0] == 'pred' or g[0] in F.ARITH1 + F.ARITH2 + F.ARITHF2:
+            for c in F.children(g):
+                if isinstance(c, tuple) and F.has_op(c, POLAR):
+                    return 'C20-operator-below-comparison'
     return None
 
 
@@ -64,6 +71,11 @@ def formula_set(tier):
         for v in Ut:
             for b in ('and', 'or', 'implies'):
                 fs.append((b, F.ap1(u, F.X), F.ap1(v, F.X)))
+    # a comparison whose operand is a temporal / Boolean expression (legal for the grammar): the cause has to respect the threshold and the
+    # direction of the comparison, not only the sign of the operand
+    for g in (('always', (0, 2), X), ('eventually', (0, 1), X), ('once', (0, 1), ('next', X)), ('and', X, Y), ('or', X, ('next', Y)), ('not', X), ('next', X)):
+        for c, k in (('>=', F.C0), ('<=', F.C0), ('<', F.C1), ('>', ('const', -1.0)), ('<=', Y)):
+            fs += [('pred', c, g, k), ('not', ('pred', c, g, k))]
     out, seen = [], set()
     for f in fs:
         if f not in seen:
